@@ -87,6 +87,11 @@ var c07Exists = []c07exists{
 	{"q >= 0 AND g = 'x'", func(in, out map[string]any) bool { return in["q"].(float64) >= 0 && out["g"] == "x" }},
 	{"a > 1", func(in, out map[string]any) bool { return out["a"].(float64) > 1 }},
 	{"q < 0 OR a = 3", func(in, out map[string]any) bool { return in["q"].(float64) < 0 || out["a"].(float64) == 3 }},
+	// outer columns reached through a selector with further steps (index, nested key)
+	{"q >= `caps[0]`", func(in, out map[string]any) bool { return in["q"].(float64) >= out["caps"].([]any)[0].(float64) }},
+	{"q > `caps[1]` AND `meta.cap` > 1", func(in, out map[string]any) bool {
+		return in["q"].(float64) > out["caps"].([]any)[1].(float64) && out["meta"].(map[string]any)["cap"].(float64) > 1
+	}},
 	// sparse elements: a key that an element lacks must read as NULL whatever its siblings hold
 	{"q = 2 AND z IS NULL", func(in, out map[string]any) bool { return in["q"].(float64) == 2 && in["z"] == nil }},
 	{"z IS NOT NULL AND q = 2", func(in, out map[string]any) bool { return in["z"] != nil && in["q"].(float64) == 2 }},
@@ -140,7 +145,7 @@ func (p *c07) Init(tier string) {
 		for _, q := range qs {
 			items = append(items, map[string]any{"q": q, "w": q * 10})
 		}
-		return map[string]any{"id": id, "a": a, "g": g, "items": items}
+		return map[string]any{"id": id, "a": a, "g": g, "items": items, "caps": []any{a, id}, "meta": map[string]any{"cap": a}}
 	}
 	u := func(bs ...float64) []any {
 		out := []any{}
@@ -166,7 +171,7 @@ func (p *c07) Init(tier string) {
 		func() map[string]any {
 			// nested arrays whose elements do not all have the same keys
 			sparse := func(id, a float64, g string, items ...any) map[string]any {
-				return map[string]any{"id": id, "a": a, "g": g, "items": items}
+				return map[string]any{"id": id, "a": a, "g": g, "items": items, "caps": []any{a, id}, "meta": map[string]any{"cap": a}}
 			}
 			return map[string]any{"t": []any{
 				sparse(0, 1, "x", map[string]any{"q": 1.0, "w": 10.0, "z": 5.0}, map[string]any{"q": 2.0, "w": 20.0}),
@@ -521,7 +526,7 @@ func (p *c07) runExists(r *core.CaseResult, ei, di int, mk func() map[string]any
 
 func (p *c07) Meta() core.Meta {
 	return core.Meta{
-		Rule:        "pipelines: 14 inner queries (filter, projection, aggregate, order, limit, distinct, star, empty result, nested column kept, CASE, EXISTS) x 12 outer queries (star, filter, arithmetic, group-by, order, aggregate, limit, distinct, IN list, IN subquery on the enclosing document, BETWEEN, window) in the forms WITH c AS (I) O[c] and FROM (I) AS d; 2- and 3-stage CTE chains; a CTE referenced twice (self-join, UNION ALL); a CTE read through a path selector; each composed query vs the outer query run over the inner result materialised as plain input. Row-scoped: 8 select-list subqueries (two of them read the enclosing document but are correlated with the outer row) vs the subquery run standalone on each row (with <- bound to the enclosing document), 5 IN-subqueries vs membership in the standalone result, 9 EXISTS predicates over inner and outer columns (incl. IS NULL on keys that some elements of the nested array lack) vs a direct existential. 6 documents (one with sparse nested elements) (thorough: also all tables of <= 3 rows over 3 archetypes). non-trivial = the composed query returns rows",
+		Rule:        "pipelines: 14 inner queries (filter, projection, aggregate, order, limit, distinct, star, empty result, nested column kept, CASE, EXISTS) x 12 outer queries (star, filter, arithmetic, group-by, order, aggregate, limit, distinct, IN list, IN subquery on the enclosing document, BETWEEN, window) in the forms WITH c AS (I) O[c] and FROM (I) AS d; 2- and 3-stage CTE chains; a CTE referenced twice (self-join, UNION ALL); a CTE read through a path selector; each composed query vs the outer query run over the inner result materialised as plain input. Row-scoped: 8 select-list subqueries (two of them read the enclosing document but are correlated with the outer row) vs the subquery run standalone on each row (with <- bound to the enclosing document), 5 IN-subqueries vs membership in the standalone result, 11 EXISTS predicates over inner and outer columns (incl. outer columns reached through selectors with an index or a nested key, and IS NULL on keys that some elements of the nested array lack) vs a direct existential. 6 documents (one with sparse nested elements) (thorough: also all tables of <= 3 rows over 3 archetypes). non-trivial = the composed query returns rows",
 		Assumptions: []string{"inner and outer columns of EXISTS have distinct names (the property fixes no rule for clashes)", "composed and staged results are compared as sequences (multisets for the self-join)"},
 		Bounds:      map[string]any{"inner": len(c07Inner), "outer": len(c07Outer), "documents": len(p.docs)},
 		Exhaustive:  true,
